@@ -9,17 +9,17 @@ Proof. destruct (Req_EM_T x 0); split; intros; try reflexivity; try assumption; 
 Lemma eqz_false x : (if Req_EM_T x 0 then true else false) = false <-> x <> 0.
 Proof. destruct (Req_EM_T x 0); split; intros; try reflexivity; try assumption; try discriminate; contradiction. Qed.
 
-(* no division by zero, no sqrt of a negative number is ever performed, for all non-negative singles rates (any c) *)
+(* no division by zero, no sqrt of a negative number is ever performed, for all non-negative singles rates (any c).
+   The symmetric efficiency divides by sqrt(Rs) * sqrt(Ri) (F19: not by sqrt(Rs * Ri), whose argument can leave binary64) *)
 Lemma efficiencies_defined c rs ri : 0 <= rs -> 0 <= ri -> efficiencies_from_counts_defined c rs ri.
 Proof.
   intros Hs Hi. unfold efficiencies_from_counts_defined.
   split; [intros H; apply eqz_false in H; exact H|].
   split; [intros H; apply eqz_false in H; exact H|].
-  assert (Hp : 0 <= rs * ri) by (apply Rmult_le_pos; assumption).
-  split; intros H; apply orb_false_iff in H; destruct H as [H1 H2]; apply eqz_false in H1, H2.
-  - lra.
-  - intros Hq. apply sqrt_eq_0 in Hq; [|lra].
-    assert (E : rs * ri = 0) by lra. apply Rmult_integral in E. tauto.
+  split; [intros _; lra|]. split; [intros _; lra|].
+  intros H; apply orb_false_iff in H; destruct H as [H1 H2]; apply eqz_false in H1, H2.
+  assert (0 < sqrt (rs * 1)) by (apply sqrt_lt_R0; lra). assert (0 < sqrt (ri * 1)) by (apply sqrt_lt_R0; lra).
+  apply Rgt_not_eq. apply Rmult_lt_0_compat; assumption.
 Qed.
 
 (* the values *)
@@ -27,7 +27,7 @@ Lemma efficiencies_values c rs ri :
   let e := efficiencies_from_counts c rs ri in
   (ri <> 0 -> eff_signal e = c / ri) /\ (ri = 0 -> eff_signal e = 0) /\
   (rs <> 0 -> eff_idler e = c / rs) /\ (rs = 0 -> eff_idler e = 0) /\
-  (rs <> 0 -> ri <> 0 -> eff_symmetric e = c / sqrt (rs * ri)) /\ (rs = 0 \/ ri = 0 -> eff_symmetric e = 0) /\
+  (rs <> 0 -> ri <> 0 -> eff_symmetric e = c / (sqrt rs * sqrt ri)) /\ (rs = 0 \/ ri = 0 -> eff_symmetric e = 0) /\
   eff_coincidences e = c /\ eff_signal_singles e = rs /\ eff_idler_singles e = ri.
 Proof.
   cbn zeta. unfold efficiencies_from_counts.
@@ -39,9 +39,17 @@ Proof.
   - intros H. destruct (Req_EM_T rs 0); [reflexivity|contradiction].
   - intros H1 H2. destruct (Req_EM_T rs 0); [contradiction|]. destruct (Req_EM_T ri 0); [contradiction|]. cbn [orb].
     destruct (bool_dec false true) as [F|_]; [discriminate F|].
-    replace (rs * ri * 1 * 1) with (rs * ri) by ring. replace (c * 1) with c by ring. reflexivity.
+    replace (rs * 1) with rs by ring. replace (ri * 1) with ri by ring. replace (c * 1) with c by ring. reflexivity.
   - intros [H|H]; destruct (Req_EM_T rs 0), (Req_EM_T ri 0); try contradiction; cbn [orb];
       destruct (bool_dec true true) as [_|F]; try reflexivity; exfalso; apply F; reflexivity.
+Qed.
+
+(* over the reals, for non-negative rates, this is the property's C / sqrt(Rs Ri) *)
+Lemma symmetric_is_property_form c rs ri :
+  0 <= rs -> 0 <= ri -> rs <> 0 -> ri <> 0 -> eff_symmetric (efficiencies_from_counts c rs ri) = c / sqrt (rs * ri).
+Proof.
+  intros Hs Hi Ns Ni. destruct (efficiencies_values c rs ri) as (_ & _ & _ & _ & Y1 & _). rewrite (Y1 Ns Ni).
+  rewrite sqrt_mult_alt by assumption. reflexivity.
 Qed.
 
 (* coincidences <= both singles  ==>  all three efficiencies in [0,1] *)
@@ -61,7 +69,7 @@ Proof.
   - destruct (Req_dec rs 0) as [E|E]; [rewrite (I0 E); lra|]. rewrite (I1 E). apply Hdiv; lra.
   - destruct (Req_dec rs 0) as [E|E]; [rewrite (Y0 (or_introl E)); lra|].
     destruct (Req_dec ri 0) as [E'|E']; [rewrite (Y0 (or_intror E')); lra|].
-    rewrite (Y1 E E'). apply Hdiv.
+    rewrite (Y1 E E'). rewrite <- sqrt_mult_alt by lra. apply Hdiv.
     + apply sqrt_lt_R0. apply Rmult_lt_0_compat; lra.
     + destruct (Req_dec c 0) as [Ec|Ec]; [subst; apply sqrt_pos|].
       rewrite <- (sqrt_square c) by assumption. apply sqrt_le_1_alt. apply Rmult_le_compat; lra.
@@ -74,7 +82,7 @@ Lemma efficiencies_geometric_mean c rs ri :
 Proof.
   intros Hc Hs Hi. cbn zeta.
   destruct (efficiencies_values c rs ri) as (S1 & _ & I1 & _ & Y1 & _).
-  rewrite S1, I1, Y1 by lra.
+  rewrite S1, I1, Y1 by lra. rewrite <- sqrt_mult_alt by lra.
   replace (c / ri * (c / rs)) with ((c * c) / (rs * ri)) by (field; lra).
   rewrite sqrt_div_alt by (apply Rmult_lt_0_compat; assumption). rewrite sqrt_square by assumption. reflexivity.
 Qed.
